@@ -71,6 +71,10 @@ pub enum Flavour
     ExclusiveWarn,
     /// Non-exclusive system all of whose parameters (including `Commands`) sit inside one `ParamSet`.
     InParamSet,
+    /// Non-exclusive system whose only way to the world is a `DeferredWorld` (next to its readers, inside one `ParamSet`):
+    /// everything it queues lands on the *world's* command queue, not on a buffer of its own, so nothing Bevy does when the
+    /// system returns applies it -- only the runner's own flush does.
+    DeferredW,
     /// A user-side `CallbackSystem` inside `SystemCommandCallback::with(..)`, spawned with `spawn_system_command_from`; the callback
     /// does "make sure it is initialised, then run" on every run. A user callback cannot invoke the injected cleanup (its `run` is
     /// crate-private), so such a system is only ever run manually or by resource reactions (which carry no cleanup).
@@ -356,6 +360,15 @@ pub struct Program
     /// exercised between the driver steps: neither world may affect the other.
     #[serde(default)]
     pub bystander: bool,
+    /// Per callee function key of the syscall family: the callee is written with a `DeferredWorld` as its only way to the world,
+    /// so what it queues lands on the world's own command queue.
+    #[serde(default)]
+    pub callee_dw: [bool; 3],
+    /// Exclusive bodies do not flush the world's command queue themselves before they trigger something directly
+    /// (`world.broadcast`, `world.entity_event`, `trigger_mutation`, ...): what they queued earlier is still pending while the
+    /// framework works out who reacts, and is applied somewhere inside the call.
+    #[serde(default)]
+    pub excl_noflush: bool,
 }
 
 impl Program
